@@ -85,6 +85,14 @@ def cases(tier, seed):
             for op in ("remove", "link", "softlink", "move") + (("dedupe", "move_other_mount") if mode.startswith("ofd") else ()):
                 out.append({"ngroups": 2, "locked": sub, "mode": mode, "op": op, "no_lock": False,
                             "droppable": ["r/b/g0_1", "r/b/g1_1", "r/c/g0_2", "r/c/g1_2"]})
+    # one group lies where advisory locks are "not supported" (EOPNOTSUPP from fcntl, as on some network / FUSE file
+    # systems; fclones then works without a lock there), the other group's droppable members are locked by a foreign
+    # process: what happens to the first group may not change how the second is treated - in either processing order
+    for unsup, locked in (("g1_", ["r/b/g0_1", "r/c/g0_2"]), ("g0_", ["r/b/g1_1", "r/c/g1_2"]), ("g1_", ["r/b/g0_1"])):
+        for mode in ("write", "read"):
+            for op in ("remove", "link", "softlink", "dedupe", "move"):
+                out.append({"ngroups": 2, "locked": locked, "mode": mode, "op": op, "no_lock": False,
+                            "droppable": ["r/b/g0_1", "r/b/g1_1", "r/c/g0_2", "r/c/g1_2"], "lock_unsupported": unsup})
     # a locked file that has several names among the droppable members (hard links; report with and without -H)
     for mode in ("write", "read"):
         for sub in ([], ["r/b/h1"], ["r/b/h2"], ["r/c/h3"], ["r/c/k2"], ["r/b/h1", "r/c/k2"]):
@@ -208,7 +216,11 @@ def evaluate(case):
             try:
                 # under the interposer, so that even a temporary rename of a locked file is seen
                 dargs = list(D.OPS[op]) + (["--no-lock"] if case["no_lock"] else []) + ([target] if op == "move" else [])
-                r = S.run_with_shim(sc, dargs, [sc.tree, target], "m", stdin=report, env_extra={"RAYON_NUM_THREADS": "1"})
+                xenv = {"RAYON_NUM_THREADS": "1"}
+                if case.get("lock_unsupported"):
+                    xenv["FCSHIM_LOCK_UNSUPPORTED"] = case["lock_unsupported"]
+                    feat["locks_unsupported_for_another_group"] = True
+                r = S.run_with_shim(sc, dargs, [sc.tree, target], "m", stdin=report, env_extra=xenv)
             finally:
                 if loop:
                     loop.__exit__()
